@@ -16,6 +16,9 @@ type CnfCase struct {
 	Method  string  `json:"method,omitempty"` // mus deletion insertion maxsat
 	Cert    [][]int `json:"cert,omitempty"`
 	Entry   string  `json:"entry,omitempty"` // reader chan
+	// C08: another certificate checked FIRST on the same Problem value (its verdict is not judged): "checking leaves the
+	// problem reusable with the same answer" also after a certificate that was rejected half-way
+	Pre [][]int `json:"pre,omitempty"`
 }
 
 func (c *CnfCase) norm() {
@@ -34,6 +37,7 @@ func (c *CnfCase) norm() {
 	}
 	fix(c.Clauses)
 	fix(c.Cert)
+	fix(c.Pre)
 	if c.N < m {
 		c.N = m
 	}
@@ -271,18 +275,28 @@ func genC08(r *rand.Rand, idx int, tier string) *CnfCase {
 	}
 	n := 2 + r.Intn(nmax-1)
 	var cls [][]int
+	under := false
 	if r.Intn(3) == 0 {
 		c := genCnfForMus(r, tier)
 		cls, n = c.Clauses, c.N
 	} else {
 		m := int(float64(n)*(3.5+r.Float64()*2)) + 1
+		if r.Intn(3) == 0 {
+			under = true
+			// under-constrained: satisfiable, so that a non-consequence exists and accepting one can be seen
+			m = int(float64(n)*(0.8+r.Float64()*1.7)) + 1
+		}
 		for i := 0; i < m; i++ {
 			cls = append(cls, genClause(r, n, 2, 3, 0.05, 0.03))
 		}
 	}
 	c := &CnfCase{N: n, Clauses: cls, Entry: []string{"reader", "chan"}[r.Intn(2)]}
 	var cert [][]int
-	switch r.Intn(6) {
+	kind := r.Intn(6)
+	if under && r.Intn(2) == 0 {
+		kind = 0
+	}
+	switch kind {
 	case 0: // random clause sequence
 		for i := 1 + r.Intn(5); i > 0; i-- {
 			cert = append(cert, genClause(r, n, 0, 3, 0.1, 0.1))
@@ -321,6 +335,12 @@ func genC08(r *rand.Rand, idx int, tier string) *CnfCase {
 		}
 	}
 	c.Cert = cert
+	if r.Intn(3) == 0 || (under && r.Intn(2) == 0) {
+		// mostly non-consequences (rejected), short
+		for i := 1 + r.Intn(3); i > 0; i-- {
+			c.Pre = append(c.Pre, genClause(r, n, 1, 2, 0.05, 0.05))
+		}
+	}
 	c.norm()
 	return c
 }
@@ -349,11 +369,11 @@ func runC08(e *emitter, idx int, c *CnfCase) {
 		pb := c.problem()
 		before := deepCopy(pb.Clauses)
 		nbcl := pb.NbClauses
-		check := func() (bool, error) {
+		checkCert := func(cert [][]int) (bool, error) {
 			if c.Entry == "chan" {
 				ch := make(chan string)
 				go func() {
-					for _, cl := range c.Cert {
+					for _, cl := range cert {
 						var b strings.Builder
 						for _, l := range cl {
 							fmt.Fprintf(&b, "%d ", l)
@@ -368,7 +388,11 @@ func runC08(e *emitter, idx int, c *CnfCase) {
 				}
 				return v, err
 			}
-			return pb.Unsat(strings.NewReader(certText(c.Cert)))
+			return pb.Unsat(strings.NewReader(certText(cert)))
+		}
+		check := func() (bool, error) { return checkCert(c.Cert) }
+		if len(c.Pre) > 0 {
+			checkCert(c.Pre)
 		}
 		v, err := check()
 		if err != nil {
